@@ -200,6 +200,48 @@ func init() {
 			},
 		},
 		{
+			// a header behind 0..N bytes of filler that holds no I or M byte at all (the search may
+			// then advance in its largest steps), N beyond the 4096-byte buffer refill
+			Name: "enum-offsets", Enumerated: true, Weight: 1,
+			N: func(tier string, seed uint64) uint64 {
+				if tier == "thorough" {
+					return 9000 / 50
+				}
+				return 4500 / 50
+			},
+			Run: func(c *Ctx) {
+				for n := int(c.Run) * 50; n < int(c.Run)*50+50; n++ {
+					for kind := 0; kind < 3; kind++ {
+						pre := make([]byte, n)
+						r := core.NewSplitMix(uint64(n)*3 + uint64(kind))
+						for i := range pre {
+							switch kind {
+							case 0:
+								pre[i] = 0xaa
+							case 1:
+								pre[i] = 0
+							default:
+								b := byte(r.Next())
+								if b == 'I' || b == 'M' {
+									b = 'x'
+								}
+								pre[i] = b
+							}
+						}
+						for _, hdr := range [][]byte{[]byte("II*\x00\x08\x00\x00\x00"), []byte("MM\x00*\x00\x00\x01\x02")} {
+							stream := append(append(append([]byte(nil), pre...), hdr...), bytes.Repeat([]byte{'x'}, 40)...)
+							if !c12Judge(c, stream, harness.RKBufio4096, Delivery{}, true, fmt.Sprintf("filler kind %d of %d bytes, header=%q", kind, n, hdr[:4])) {
+								return
+							}
+							c.Inc("probe:enumerated-streams")
+						}
+					}
+				}
+				c.NonTrivial = true
+				c.Descf("header behind %d..%d filler bytes without I/M (0xAA, 0x00, random), II and MM", int(c.Run)*50, int(c.Run)*50+49)
+			},
+		},
+		{
 			Name: "sampled", Weight: 3,
 			N: func(tier string, seed uint64) uint64 {
 				if tier == "thorough" {
